@@ -61,10 +61,12 @@ def _native(arg):
         return name, (None, {"error": traceback.format_exc(limit=6)})
 
 
-def items_for(reg, prop):
+def items_for(reg, prop, tier="thorough"):
     out = []
     for n, c in reg.contracts.items():
         if prop in c.props:
+            if c.heavy and tier == "quick":
+                continue
             out.append(("contract", n))
     for n, l in reg.lemmas.items():
         if prop in l.props:
@@ -170,8 +172,9 @@ def load_ledger():
 def run(prop, tier="quick", seed=0, jobs=16):
     t0 = time.time()
     reg = load_all_contracts()
-    items = items_for(reg, prop)
-    results = run_items(items, jobs)
+    items = items_for(reg, prop, tier)
+    skipped_heavy = sorted(n for n, c in reg.contracts.items() if prop in c.props and c.heavy and tier == "quick")
+    results = run_items(items, jobs, limit_s=VERIFY_LIMIT_S if tier == "quick" else 1500)
     ledger = load_ledger()
     n_native = 400 if tier == "quick" else 6000
     native_jobs = []
@@ -255,7 +258,7 @@ def run(prop, tier="quick", seed=0, jobs=16):
         "obligations": obligations, "discharged": discharged, "backends": backends,
         "solver_time_s": round(sum(r.get("solver_time_s", 0) for r in results), 3),
         "functions": functions, "assumed_contracts": sorted(assumed), "inlined": sorted(inlined), "trusted_contracts": trusted,
-        "violations": violations, "degraded": degraded, "not_proved": not_proved,
+        "violations": violations, "degraded": degraded, "not_proved": not_proved, "not_run_in_quick": skipped_heavy,
         "native": {k: v[1] for k, v in native.items()},
         "samples": _samples(results),
         "wall_s": round(time.time() - t0, 3),
@@ -280,7 +283,7 @@ def _samples(results):
 def relock(props=None):
     reg = load_all_contracts()
     items = [("contract", n) for n in reg.contracts] + [("lemma", n) for n in reg.lemmas] + [("static", n) for n in reg.statics]
-    results = run_items(items)
+    results = run_items(items, limit_s=1500)
     led = {}
     for r in results:
         led[r["contract"]] = {"status": r["status"], "obligations": sorted({o["label"] for o in r["obligations"]}), "vcs": len(r["obligations"])}
